@@ -325,7 +325,23 @@ func buildInputs() {
 	lrespInputs = append(lrespInputs, input{"logout-response-tampered", encode(l2), false})
 	lrespInputs = append(lrespInputs, input{"logout-response-wrong-destination", encode(messageEl("LogoutResponse", "_l3", acsURL)), false})
 
+	// several independent faults in ONE message (wrong Destination AND wrong Version, signed by the IdP): which fault is
+	// reported must not depend on anything but the message (e.g. not on the iteration order of a map of checks)
+	multi := func(kind, id string) *etree.Element {
+		m := messageEl(kind, id, "https://elsewhere.example.com/endpoint")
+		m.RemoveAttr("Version")
+		m.CreateAttr("Version", "1.1")
+		return signEl(m, idp1, exc, dsig.RSASHA256SignatureMethod)
+	}
+	rm := messageEl("Response", "_rm", "https://elsewhere.example.com/endpoint")
+	rm.RemoveAttr("Version")
+	rm.CreateAttr("Version", "1.1")
+	rm.AddChild(assertionEl("_am", "alice@example.com"))
+	respInputs = append(respInputs, input{"response-two-faults", encode(signEl(rm, idp1, exc, dsig.RSASHA256SignatureMethod)), false})
+	lrespInputs = append(lrespInputs, input{"logout-response-two-faults", encode(multi("LogoutResponse", "_lm")), false})
+
 	q1 := messageEl("LogoutRequest", "_q1", sloURL)
+	lreqInputs = append(lreqInputs, input{"logout-request-two-faults", encode(multi("LogoutRequest", "_qm")), false})
 	lreqInputs = append(lreqInputs, input{"logout-request-signed", encode(signEl(q1, idp1, c11, dsig.RSASHA256SignatureMethod)), true})
 	lreqInputs = append(lreqInputs, input{"logout-request-unsigned", encode(q1), true})
 	q2 := signEl(q1, idp1, exc, dsig.RSASHA256SignatureMethod)
@@ -1053,6 +1069,13 @@ func main() {
 			again := safeRun(o.name, o.run, ref)
 			evals += 2
 			counts["class:"+o.class] += 2
+			if strings.Contains(o.name, "two-faults") {
+				// a choice between several reportable faults: repeat (a random choice agrees twice half of the time)
+				for k := 0; k < 10 && again == expected[i]; k++ {
+					again = safeRun(o.name, o.run, ref)
+					evals++
+				}
+			}
 			if strings.HasPrefix(expected[i], "PANIC") {
 				violate("panic:"+o.name, "operation panicked: "+expected[i], map[string]interface{}{"op": o.name, "config": cfg.String()})
 			}
